@@ -10,18 +10,17 @@ DEPS = ["c17/Run.v"]
 # KNOWN_FINDINGS.txt or repairs the code); every member of a family is reported under its canonical
 # key, but only while the canonical case itself still fails.
 FAMILY_KEY = {
-    "pipe-reset": 'pipe-reset docsize=100 ndocs=164 err={"b": tru } reads=full',
     "cr-window:seek": 'cr-window seek docsize=100 ndocs=200 term=CR err={"b": tru }',
     "cr-window:pipe": 'cr-window pipe docsize=100 ndocs=200 term=CR err={"b": tru } reads=full',
-    "interp-open": 'query-interp-open q="foo \\"a\\\\(2)\\""',
+    "stream-offset": 'stream-offset seek input={"b": tru }',
 }
 WHAT = {
-    "pipe-reset": "non-seekable input: the 16 KiB window reset discarded read-ahead that contains the offending byte "
-                  "(wrong line and/or empty excerpt)",
+    "pipe-reset": "non-seekable input: the window trimming dropped read-ahead that contains the offending byte "
+                  "(wrong line and/or empty excerpt) — D7, repaired by e216f69, reintroduced?",
     "cr-window": "input longer than the window with lone-CR line terminators: the bytes before the window are counted "
                  "with '\\n' only, getLineByOffset counts CR too (line number too small)",
-    "interp-open": "ParseError for an unexpected interpolated-string opening carries the previous token and the offset "
-                   "after the quote (Token/Offset do not identify the offending bytes)",
+    "stream-offset": "--stream: the offset of a SyntaxError returned through dec.Token() is not the absolute 1-based "
+                     "offset of the offending byte, cli/inputs.go uses it as such (wrong caret, often wrong line)",
 }
 
 
@@ -55,7 +54,8 @@ def run(tier, seed):
         "encoding/json reports the 1-based offset of the first offending byte (SyntaxError.Offset) / ErrUnexpectedEOF; "
         "the number of bytes it has read when it delivers a value is arbitrary (universally quantified in the "
         "theorems, observed by the harness reader in the correspondence)",
-        "io.TeeReader/bytes.Buffer/io.LimitReader/io.Copy/Seek semantics as modelled in coq/c17/Window.v; reads of a "
+        "io.TeeReader/bytes.Buffer (Next keeps the unread tail)/io.LimitReader/io.Copy/Seek semantics as modelled in "
+        "coq/c17/Window.v; dec.InputOffset() = bytes consumed, before the offending byte; reads of a "
         "seekable file do not fail and the file is not modified during the run",
         "go-yaml's ParserError.Index/UnmarshalError.Index and gojq.ParseError.Offset/Token are taken as given "
         "(the lexer is modelled by C08/C09; here: implementation-side oracle on generated bad queries)",
@@ -85,7 +85,8 @@ def run(tier, seed):
         for line, verdict in smism:
             name = byline.get(line, short(line))
             canon_failing.add(name)
-            fam = "pipe-reset" if name.startswith("pipe-reset") else "cr-window" if name.startswith("cr-window") else None
+            fam = ("cr-window" if name.startswith("cr-window") else "stream-offset" if name.startswith("stream-offset")
+                   else "pipe-reset" if "pipe-reset" in name else None)
             c.failing_input(WHAT.get(fam, "reported position violates the property on a canonical case"), name,
                             "spec verdict %s on the canonical input; stderr is in the case line: %s" % (verdict, short(line, 1200)))
         for line, verdict in mism:
@@ -93,7 +94,7 @@ def run(tier, seed):
 
     # 2. generated streams
     members = {}
-    plan = [("lbo", 150 if quick else 1500), ("json", 2000 if quick else 30000),
+    plan = [("lbo", 150 if quick else 500), ("json", 2000 if quick else 12000),
             ("query", 0), ("yaml", 0)]
     for name, n in plan:
         cases, mism, smism, st = stream(c, exe_m, name, n, tier, seed)
@@ -103,11 +104,11 @@ def run(tier, seed):
         for line, verdict in smism:
             fam = None
             m = re.match(r"^\(bad ([\w-]+)", verdict)
-            if m and m.group(1) in ("pipe-reset", "cr-window"):
+            if m and m.group(1) in ("stream-offset", "cr-window"):
                 fam = m.group(1)
             key = None
-            if fam == "pipe-reset":
-                key = FAMILY_KEY["pipe-reset"]
+            if fam == "stream-offset":
+                key = FAMILY_KEY["stream-offset"]
             elif fam == "cr-window":
                 key = FAMILY_KEY.get("cr-window:" + ("pipe" if transport_of(line) == "pipe" else "seek"))
             if key and key in canon_failing:
@@ -125,10 +126,7 @@ def run(tier, seed):
         for v in (st.get("impl_violations") or []):
             m = re.match(r"^lexer-offset-token (\S+) :: (.*)$", v)
             fam = m.group(1) if m else "other"
-            if fam == "interp-open":
-                c.failing_input(WHAT["interp-open"], FAMILY_KEY["interp-open"], v)
-            else:
-                c.failing_input("ParseError Offset/Token do not identify the offending token", v, v)
+            c.failing_input("ParseError Offset/Token do not identify the offending token (%s)" % fam, v, v)
 
     # 3. thorough: the built binary with real files and pipes
     if not quick:
@@ -149,7 +147,9 @@ def run(tier, seed):
                     c.failing_input("binary: reported position differs from the specification (%s)" % verdict, short(line), verdict)
             sbad = set(l for l, _ in smism)
             for line, verdict in mism[:10]:
-                if line not in sbad:
+                # on a real pipe the bytes read at the time of the error are not observable, so the quoted line may be
+                # cut earlier than the model (given "everything read") predicts: judged against the spec only
+                if line not in sbad and not line.startswith("(json (pipe real"):
                     c.broken_correspondence("c17bin", short(line), "model expected: " + short(verdict, 600))
     stats["family_members_seen"] = members
     return c.finish(RULE, extra_cov=dict(harness_stats=stats))
